@@ -42,6 +42,9 @@ SCRIPTS = [
     ("running-sum", "DS_r <- DS_1[calc Me_3 := sum(Me_1 over (partition by Id_2 order by Id_1 data points between unbounded preceding and current data point))];"),
     ("rank", "DS_r <- DS_1[calc Me_3 := rank(over (partition by Id_2 order by Id_1))];"),
     ("ratio", "DS_r <- DS_1[calc Me_3 := ratio_to_report(Me_1 over (partition by Id_1))];"),
+    ("lag-partition-except", "DS_r <- DS_1[calc Me_3 := lag(Me_1, 1 over (partition except Id_1 order by Id_1))];"),
+    ("first-partition-except", "DS_r <- DS_1[calc Me_3 := first_value(Me_1 over (partition except Id_1 order by Id_1 desc))];"),
+    ("lag-dataset-partition-except", "DS_r <- lag(DS_1[keep Me_1], 1 over (partition except Id_1 order by Id_1));"),
     ("count-all", "DS_r <- count(DS_1 group by Id_2);"),
     ("exists_in", "DS_r <- exists_in(DS_1, DS_2, all);"),
     ("sub", "DS_r <- DS_1[sub Id_2 = \"a\"];"),
@@ -180,6 +183,53 @@ def run_gen_case(case, emit, tier):
             emit({"v": "held", "b": bucket, "sample": {"script": script, "form": form, "rows": n, "perm": list(p), "cols_shuffled": colshuf}})
 
 
+def run_sdmxcsv_case(rng, emit, tier):
+    """SDMX-CSV style file (STRUCTURE / STRUCTURE_ID / ACTION columns, rows marked D are deletions): the result must not
+    depend on where those columns sit nor on the row order"""
+    from pathlib import Path
+    from vf import eng
+    comps = [("Id_1", "Integer", "Identifier", False), ("Id_2", "String", "Identifier", False), ("Me_1", "Number", "Measure", True)]
+    st = eng.structures(eng.mkds("DS_1", comps))
+    n = rng.randint(3, 6)
+    rows = []
+    for i in range(n):
+        rows.append({"STRUCTURE": "dataflow", "STRUCTURE_ID": "MD:DF1(1.0)", "ACTION": rng.choice(["I", "A", "D", "I"]), "Id_1": str(i + 1),
+                     "Id_2": rng.choice(["a", "b"]), "Me_1": str(rng.choice([1.5, 2.0, -3.25, 10.0]))})
+    if not any(r["ACTION"] == "D" for r in rows):
+        rows[rng.randrange(n)]["ACTION"] = "D"
+    canon = ["STRUCTURE", "STRUCTURE_ID", "ACTION", "Id_1", "Id_2", "Me_1"]
+    d = os.path.join(eng.SCRATCH, "c33s")
+    os.makedirs(d, exist_ok=True)
+
+    def write(cols, rws, tag):
+        p = os.path.join(d, f"{tag}.csv")
+        with open(p, "w") as f:
+            f.write(",".join(cols) + "\n" + "".join(",".join(r[c] for c in cols) + "\n" for r in rws))
+        return Path(p)
+    script = "DS_r <- DS_1;"
+    s0, r0 = eng.call(eng.run, script, st, {"DS_1": write(canon, rows, "b")})
+    if s0 == "exc":
+        emit({"v": "skip", "why": f"sdmx-csv baseline rejected: {type(r0).__name__}"})
+        return
+    d0 = eng.result_digest(r0)
+    case = {"sdmxcsv": rows}
+    for i in range(6 if tier == "quick" else 24):
+        cols = canon[:]
+        rng.shuffle(cols)
+        rws = rows[:]
+        rng.shuffle(rws)
+        s, r = eng.call(eng.run, script, st, {"DS_1": write(cols, rws, "p")})
+        bucket = f"gen:sdmx-csv/csv/rows={n}/first_col={cols[0]}"
+        if s == "exc":
+            emit({"v": "viol", "b": bucket, "mech": f"sdmx-csv/permuted-input-rejected/{type(r).__name__}", "what": f"SDMX-CSV with columns {cols}: {type(r).__name__}: {str(r)[:160]} (canonical order is accepted)", "case": dict(case, cols=cols)})
+            continue
+        dd = eng.digests_equal(eng.result_digest(r), d0)
+        if dd:
+            emit({"v": "viol", "b": bucket, "mech": "sdmx-csv/result-depends-on-column-order", "what": f"SDMX-CSV with columns {cols}: {dd}", "case": dict(case, cols=cols)})
+        else:
+            emit({"v": "held", "b": bucket, "sample": {"columns": cols, "rows": n, "deleted_rows": sum(1 for x in rows if x['ACTION'] == 'D')}})
+
+
 _SKIP = re.compile(r"\bover\s*\(|current_date|random\s*\(|\brank\b|first_value|last_value|\blag\b|\blead\b", re.I)
 
 
@@ -265,6 +315,8 @@ def run_shard(spec, emit):
             case = {"family": fam, "script": script, "ts": ts, "rows": {k: [list(r) for r in v] for k, v in rows.items()},
                     "form": rng.choice(["csv", "df", "parquet"]), "seed": rng.randrange(1 << 30)}
             run_gen_case(case, emit, tier)
+    for _ in range(2 if tier == "quick" else 10):
+        run_sdmxcsv_case(rng, emit, tier)
     for c in rider.corpus_slice(spec, quick_fraction=8, tag="C33"):
         if not bud.ok():
             emit({"v": "inc", "why": "cut by wall-clock budget"})
